@@ -191,7 +191,7 @@ class PhaseMonitor(Monitor):
 
 
 def make_monitors():
-    return [PhaseMonitor()]
+    return [driver.Observer(), PhaseMonitor()]
 
 
 def gen_kwargs(rng):
